@@ -41,6 +41,9 @@ def gen_instances(rng, count):
         # with n the size of the clique the loss evaluates it on (both placements of the big clique)
         (["a", "b", "c"], {"a": 3, "b": 2, "c": 2}, [(("b",), "identity", 0.5), (("b", "c"), "identity", 2.0), (("a", "b"), "identity", 2.0)]),
         (["a", "b", "c"], {"a": 2, "b": 2, "c": 3}, [(("b",), "identity", 0.5), (("a", "b"), "identity", 2.0), (("b", "c"), "identity", 2.0)]),
+        # a one-way marginal whose two containing cliques TIE in size: still counted exactly once
+        (["a", "b", "c"], {"a": 2, "b": 2, "c": 2}, [(("b",), "identity", 1.0), (("a", "b"), "identity", 2.0), (("b", "c"), "identity", 2.0)]),
+        (["a", "b", "c"], {"a": 3, "b": 2, "c": 3}, [(("c", "b"), "identity", 1.0), (("b",), "twice", 0.5), (("b", "a"), "identity", 1.0)]),
         # three-attribute projections in CYCLIC orders (a permutation that is not its own inverse), query omitted
         (["a", "b", "c"], {"a": 2, "b": 3, "c": 2}, [(("b", "c", "a"), "none", 1.0), (("c", "a", "b"), "identity", 0.5)]),
         (["a", "b", "c"], {"a": 2, "b": 2, "c": 2}, [(("c", "a", "b"), "none", 2.0), (("a", "b"), "identity", 1.0)]),
@@ -172,7 +175,7 @@ def run(ctx, canary=False):
         e = exp.get(i)
         if e is None:
             continue
-        use = styles if (thorough or i <= 10) else [styles[0]] + rng.sample(styles[1:], 3)
+        use = styles if (thorough or i <= 12) else [styles[0]] + rng.sample(styles[1:], 3)
         for k, st in enumerate(use):
             # noise scaled by s: loss, gradient and smoothness constant scale by exactly 1/s^2 (L1 by 1/s); every third run is the
             # last of three calls on one warm-started engine
